@@ -1,6 +1,7 @@
 import LinOp.C19.Proofs
 import LinOp.Generated.C19Guards
 import LinOp.C19.Known
+import LinOp.C19.KnownDelegations
 /-!
 C19 — incompatible shapes and out-of-range indices raise, never mis-compute.  Property theorems.
 
@@ -337,6 +338,29 @@ theorem solveGuard_iff (A : List Nat) (m n : Nat) (b s : List Nat) :
     solveGuard (A ++ [m, n]) b = .ok s ↔ solveShape? (A ++ [m, n]) b = some s :=
   invQuadGuard_iff A m n b s
 
+/-- `solve` with a `left_tensor`: accepted exactly when `A⁻¹R` exists and `L (A⁻¹R)` is a valid product, with that
+shape — the right-hand side is judged against the operator, not against the left tensor. -/
+theorem solveLeft_iff (A : List Nat) (m n : Nat) (b l s : List Nat) :
+    solveLeft (A ++ [m, n]) b l = .ok s ↔ solveLeftShape? (A ++ [m, n]) b l = some s := by
+  simp only [solveLeft, solveLeftShape?]
+  cases hg : solveGuard (A ++ [m, n]) b with
+  | error e =>
+    have hn : solveShape? (A ++ [m, n]) b = none := by
+      cases hs : solveShape? (A ++ [m, n]) b with
+      | none => rfl
+      | some t => rw [← solveGuard_iff] at hs; rw [hs] at hg; cases hg
+    simp [hn]
+  | ok t =>
+    have ht := (solveGuard_iff A m n b t).mp hg
+    simp only [ht, Option.bind_some]
+    cases torchMatmulShape? l t <;> simp
+
+/-- why the order matters: a left tensor that fits a wrong right-hand side (4 rows for a 5×5 operator) makes
+`left_tensor @ right_tensor` a valid product although `A⁻¹R` does not exist. -/
+theorem solveLeftUnguarded_counterexample :
+    solveLeftUnguarded [5, 5] [4, 2] [2, 4] = .ok [2, 2] ∧ solveLeftShape? [5, 5] [4, 2] [2, 4] = none ∧
+    solveLeft [5, 5] [4, 2] [2, 4] = .error .shape := by decide
+
 /-- base `expand`: for the two admissible spellings of the matrix sizes, the guard accepts exactly the
 size lists torch's `expand` accepts for the dense tensor (any batch rank, `-1` included). -/
 theorem expandGuard_iff_torch (A : List Nat) (m n : Nat) (S : List Int) (r c : Int)
@@ -373,6 +397,12 @@ each with the known "reaches the base guard" status (`guarded = true` iff the me
 `_matmul_broadcast_shape` or `super().<method>`): removing a guard or adding an override changes the
 table and breaks this obligation. -/
 theorem overrides_are_the_known_ones : overrides = knownOverrides := by decide +kernel
+
+open LinOp.Generated.C19 in
+/-- The delegation chains of the solve-type methods (which hooks each public method and each hook calls, and whether on every
+path) are the known ones: a hook re-routed past the method that carries the right-hand-side guard, a guarded helper call made
+conditional, or a new hook override changes the table and breaks this obligation. -/
+theorem delegations_are_the_known_ones : delegations = knownDelegations := by decide +kernel
 
 open LinOp.Generated.C19 in
 /-- The base-class methods still contain their guards. -/
